@@ -66,6 +66,12 @@ type liveCtx struct {
 	Part    *tmproto.Part    // a genuine part (of the proposal or of block H-1)
 	NVals   int
 	LCR     int32 // round of the commit of height H-1 as the node holds it (-1 if none)
+	// the part set the node is collecting / holding for its current round, if any
+	HasParts   bool
+	PartsTotal uint32
+	PartsHash  []byte
+	// the harness' validator is the proposer of the node's round and the node has no proposal yet
+	HarnessProposes bool
 }
 
 type gen struct {
@@ -574,7 +580,9 @@ func (g *gen) statefulInput(in *n3Input) {
 	if g.lc.PropBID != nil {
 		realBID = *g.lc.PropBID
 	}
-	switch k := g.r.Intn(10); {
+	switch k := g.r.Intn(13); {
+	case k >= 10: // (f) block parts at the boundaries of the part set the node is collecting
+		g.blockPartBoundaries(in)
 	case k < 3: // (a) proposal with a POL round, then the POL bit array
 		in.Class = "stateful:a-proposalPOL-wrong-size"
 		ph, pr := H, R+1+int32(g.r.Intn(3))
@@ -660,6 +668,89 @@ func (g *gen) statefulInput(in *n3Input) {
 			in.Seq = append(in.Seq, g.cleanHasVote(ph, pr, g.voteType(), int32(pick64(g.r, n, n+1, 63, 64, 65, 127, 128, 9999, 10000, math.MaxInt32))))
 		}
 		in.Mirror = true
+	}
+}
+
+// blockPartBoundaries: BlockPart messages for the node's current height, all passing ValidateBasic,
+// whose index / proof sit at the edges of the part set the node is collecting (its own proposal's, or
+// the one of a proposal the harness' validator has just signed), or arrive before any proposal is known.
+func (g *gen) blockPartBoundaries(in *n3Input) {
+	H, R := g.lc.H, g.lc.R
+	in.Class = "stateful:f-blockPart-boundary"
+	in.DwellMs = 20
+	in.Mirror = false
+	in.Prefix = []wireMsg{g.mNRS(H, R, g.lc.Step)}
+	total := int64(g.lc.PartsTotal)
+	hash := g.lc.PartsHash
+	switch {
+	case g.lc.HarnessProposes && g.r.Intn(3) != 0:
+		// a properly signed proposal of the round's proposer: the node starts collecting its parts
+		total = pick64(g.r, 1, 1, 2, 3, 64, 65, 1601)
+		hash = make([]byte, 32)
+		g.r.Read(hash)
+		bh := make([]byte, 32)
+		g.r.Read(bh)
+		p := tmproto.Proposal{Type: tmproto.ProposalType, Height: H, Round: R, PolRound: -1, Timestamp: tmtime.Now(),
+			BlockID: tmproto.BlockID{Hash: bh, PartSetHeader: tmproto.PartSetHeader{Total: uint32(total), Hash: hash}}}
+		p.Signature, _ = g.n.hostPV.PrivKey.Sign(types.ProposalSignBytes(g.n.chainID, &p))
+		in.Seq = append(in.Seq, wm(chData, fmt.Sprintf("Proposal h=%d r=%d pol=-1 total=%d sig=proposer (harness validator)", H, R, total), &tmcons.Proposal{Proposal: p}))
+		in.Class += "@collecting-signed-proposal"
+	case g.lc.HasParts:
+		in.Class += "@holding-own-proposal"
+	default:
+		in.Class += "@no-proposal-known"
+		if total == 0 {
+			total = pick64(g.r, 1, 2, 64)
+		}
+	}
+	mk := func(what string, round int32, index uint32, genuine bool, proofIndex, proofTotal int64) wireMsg {
+		var part tmproto.Part
+		if genuine && g.lc.Part != nil {
+			part = *g.lc.Part
+			part.Bytes = append([]byte{}, part.Bytes...)
+		} else {
+			part = tmproto.Part{Bytes: make([]byte, 1+g.r.Intn(300)), Proof: tmcrypto.Proof{LeafHash: make([]byte, 32)}}
+			g.r.Read(part.Bytes)
+			g.r.Read(part.Proof.LeafHash)
+		}
+		part.Index = index
+		if !genuine || proofTotal >= 0 {
+			part.Proof.Index, part.Proof.Total = proofIndex, proofTotal
+		}
+		return wm(chData, fmt.Sprintf("BlockPart h=%d r=%d index=%d (part-set total=%d) proof=(%d/%d) %s", H, round, part.Index, total, part.Proof.Index, part.Proof.Total, what),
+			&tmcons.BlockPart{Height: H, Round: round, Part: part})
+	}
+	T := uint32(total)
+	for i := 0; i < 2+g.r.Intn(3); i++ {
+		round := R
+		switch g.r.Intn(6) {
+		case 0:
+			if R > 0 {
+				round = R - 1
+			}
+		case 1:
+			round = R + 1
+		}
+		var m wireMsg
+		switch g.r.Intn(9) {
+		case 0, 1:
+			m = mk("index == total", round, T, false, int64(T), total+1)
+		case 2:
+			m = mk("index == total+1", round, T+1, false, int64(T)+1, total+2)
+		case 3:
+			m = mk("index == MaxUint32", round, math.MaxUint32, false, 0, 1)
+		case 4:
+			m = mk("last index, wrong proof", round, T-1, false, total-1, total)
+		case 5:
+			m = mk("right index, proof for another leaf", round, 0, false, 0, total)
+		case 6:
+			m = mk("genuine part, proof total differs from the header's", round, 0, true, 0, total+1)
+		case 7:
+			m = mk("genuine part again (duplicate)", round, 0, true, -1, -1)
+		default:
+			m = mk("index == total, genuine bytes", round, T, true, int64(T), total)
+		}
+		in.Seq = append(in.Seq, m)
 	}
 }
 
